@@ -116,8 +116,9 @@ prop("C14",
      title="One decoded key per press, none per release, via the current layout and mode",
      encoded=["EventDecoder::process_keyevent", "EventDecoder::set_ctrl_handling", "EventDecoder::get_ctrl_handling", "EventDecoder::change_layout",
               "Keyboard::process_keyevent", "Keyboard::set_ctrl_handling"],
-     bounds="all 1024 decoder states, optional symbolic reconfiguration (mode and/or layout) immediately before a symbolic event; recording layout with an "
-            "injective encoding of (layout tag, key, 9 flags, mode) and a call counter",
+     bounds="all 1024 decoder states, optional symbolic two-event history, optional symbolic reconfiguration (mode and/or layout) immediately before a symbolic "
+            "event; recording layout with an injective encoding of (layout tag, key, 9 flags, mode) and a call counter; 'current modifier state' is read "
+            "off the decoder itself (probe key on a clone), not predicted",
      samples="modstep", graph="event")
 prop("C15",
      title="Numpad follows NumLock; editing keys type the same control chars everywhere",
@@ -146,7 +147,8 @@ prop("C19",
      title="Make/break pairing and one-to-one sequences within each scancode set",
      encoded=["ScancodeSet1::advance_state", "ScancodeSet2::advance_state"],
      bounds="pairing: symbolic code byte per prefix class and set; injectivity: two symbolic (prefix, code) pairs per pair of prefix classes (2-safety)",
-     assumptions=["Set 2 unprefixed 00/AA (one-shot status codes) are excluded from the pairing equivalence",
+     assumptions=["Set 2 unprefixed 00/AA (one-shot status codes) are excluded from the pairing equivalence; sequences that are neither a press nor a release "
+                  "(errors, other one-shot events) are not constrained",
                   "E0/E1/F0 (Set 2) are prefixes, not codes; Set 1 codes are < 0x80"],
      samples="set2")
 
